@@ -12,8 +12,8 @@ for mp in sorted(glob.glob(os.path.join(here, "seeded", "*", "meta.json"))):
         if r.get("violations", 0) > 0:
             first = (r.get("first") or [""])[0]
             import re
-            m = re.search(r"\[([a-z0-9_]+)\] values=", first)
-            h = m.group(1) if m else ""
+            mm = re.search(r"\[([a-z0-9_]+)\] values=", first)
+            h = mm.group(1) if mm else ""
             cells.append("**%s** VIOLATION (%s)" % (prop, h))
         else:
             cells.append("%s exit %s" % (prop, r.get("exit")))
